@@ -248,7 +248,28 @@ func c02R2(c *Ctx) {
 	c.check(setFile.Block().Dominates(lroots.Header), "R2", "file-before-roots", p.InstrPos(setFile), "$file is set before any rule of the value runs", "the root loop is reachable without $file having been set for this value")
 	c.check(dom(lbf.Done, pat.Block()) && inLoop(lroots, pat.Block()), "R2", "beginfile-before-pattern", p.InstrPos(pat), "BEGINFILE rules complete before the pattern rules", "the pattern rules can run before the BEGINFILE loop finished")
 	c.check(pat.Block().Dominates(lef.Header) && FactsOf(ep).At(lef.Header).KnownNil(pat), "R2", "pattern-before-endfile", p.InstrPos(pat), "ENDFILE rules run after the pattern rules returned without error", "the ENDFILE loop is not dominated by a successful return of the pattern rules")
-	c.check(p.Render(pat.Call.Args[1]) == "var:lang.Evaluator.patternRules" || strings.HasSuffix(p.Render(pat.Call.Args[1]), ".patternRules"), "R2", "pattern-list", p.InstrPos(pat), "evalPatternRules(ev.patternRules)", "evalPatternRules is given "+p.Render(pat.Call.Args[1]))
+	// the list the pattern step runs: handed over by the driver, or read from the evaluator by the step
+	// itself (evalPatternRules without a parameter)
+	patList := ""
+	if len(pat.Call.Args) > 1 {
+		patList = p.Render(pat.Call.Args[1])
+	} else if epr := pat.Call.StaticCallee(); epr != nil {
+		for _, call := range callsIn(epr) {
+			for _, a := range call.Common().Args {
+				if sf, ok := loadedField(a); ok && sf.Is("Evaluator", "patternRules") {
+					patList = "e.patternRules"
+				}
+			}
+		}
+		allInstrs(epr, func(in ssa.Instruction) {
+			if u, ok := in.(*ssa.UnOp); ok {
+				if sf, ok := loadedField(u); ok && sf.Is("Evaluator", "patternRules") {
+					patList = "e.patternRules"
+				}
+			}
+		})
+	}
+	c.check(patList == "var:lang.Evaluator.patternRules" || strings.HasSuffix(patList, ".patternRules"), "R2", "pattern-list", p.InstrPos(pat), "evalPatternRules(ev.patternRules)", "evalPatternRules is given "+patList)
 	// ev.root = ranged root, before the pattern rules
 	rootOK := false
 	rootElem := ""
@@ -711,7 +732,8 @@ func c02R4(c *Ctx) {
 				}
 			}
 		})
-		c.check(p.Render(cv.Call.Args[1]) == "patternRules", "R4", "rules-list", p.InstrPos(cv), "evalRules(patternRules)", "evalRules is given "+p.Render(cv.Call.Args[1]))
+		rl := p.Render(cv.Call.Args[1])
+		c.check(rl == "patternRules" || rl == "e.patternRules", "R4", "rules-list", p.InstrPos(cv), "evalRules(the pattern rules)", "evalRules is given "+rl)
 		infos = append(infos, ci)
 	}
 	arrayOK, otherTags := false, map[string]bool{}
@@ -757,6 +779,45 @@ func c02R4(c *Ctx) {
 						otherBody = "the bare print is given only under {" + strings.Join(extra, " && ") + "}"
 					}
 				case strings.Contains(r, "(*lang.Parser).block(p)#0"):
+				case func() bool {
+					// the choice may sit in a helper of parseRule's own (`ruleBody()`): its success results are the
+					// parsed block, or the bare print under nothing but "no `{`"
+					ex, ok := st.Val.(*ssa.Extract)
+					if !ok || ex.Index != 0 {
+						return false
+					}
+					hc, ok := ex.Tuple.(*ssa.Call)
+					if !ok {
+						return false
+					}
+					h := hc.Call.StaticCallee()
+					if h == nil || !isPrivateTo(p, h, pr) || len(h.Blocks) == 0 {
+						return false
+					}
+					if extra := extraGuardsBetween(p, pr, pr.Blocks[0], st.Block(), "#1 == nil", "#1 != nil"); len(extra) > 0 {
+						otherBody = "the body chosen by " + shortName(h) + " is stored only under {" + strings.Join(extra, " && ") + "}"
+					}
+					for _, rc := range p.successResults(h) {
+						switch {
+						case rc.Value == "&lang.StatementPrint{}":
+							hasNoBrace := false
+							for _, g := range rc.Guards {
+								switch {
+								case g == "p.current.Tag != LCurly":
+									hasNoBrace = true
+								case strings.HasSuffix(g, "#1 == nil") || strings.HasSuffix(g, "#1 != nil"):
+								default:
+									otherBody = "the bare print is given only under {" + g + "}"
+								}
+							}
+							okP = okP || hasNoBrace
+						case strings.Contains(rc.Value, "(*lang.Parser).block(p)#0"):
+						default:
+							otherBody = "a rule is given the body " + abbrev(rc.Value, 80)
+						}
+					}
+					return true
+				}():
 				default:
 					otherBody = "a rule is given the body " + abbrev(r, 80)
 				}
